@@ -47,7 +47,7 @@ def range_from(draw, values):
 
 @st.composite
 def case_strategy(draw, tier="quick"):
-    spec = draw(gen.dataset(max_inputs=3, clim="maybe", flavor="det", core_max=3, extra_max=2, allow_drop=True))
+    spec = draw(gen.dataset(max_inputs=3, clim="maybe", flavor="det", core_max=3, extra_max=2, allow_drop=True, pre1970=True))
     n_opts = draw(st.sampled_from([0, 1, 2, 2, 2, 3, 3, 4]))
     names = draw(st.lists(st.sampled_from(OPT_NAMES), min_size=n_opts, max_size=n_opts, unique=True))
     opts = {}
